@@ -541,7 +541,7 @@ impl<E: Env + Clone> WSim<E> {
                 Out::Info { length, byte_length, fork, writeable, contiguous } => {
                     if *length != self.model.len()
                         || *byte_length != self.model.byte_length
-                        || *fork != 0
+                        || *fork != self.model.fork
                         || *writeable != self.model.writeable
                     {
                         return fail("info-mismatch".into(), format!("{out:?} vs model len {} bytes {}", self.model.len(), self.model.byte_length));
@@ -670,8 +670,8 @@ impl<E: Env + Clone> WSim<E> {
                     ),
                 ));
             }
-            if info.fork != 0 {
-                return Err(Failure::new(format!("fork-mismatch:{tag}"), format!("step {step}: fork {}", info.fork)));
+            if info.fork != model.fork {
+                return Err(Failure::new(format!("fork-mismatch:{tag}"), format!("step {step}: fork {} but model {}", info.fork, model.fork)));
             }
             if info.writeable != model.writeable {
                 return Err(Failure::new(
